@@ -216,8 +216,9 @@ fn sample_inputs(rng: &mut StdRng, a: Api, which: usize) -> (Vec<u8>, String) {
         Api::LzmaDec(opt) => {
             let p = Props { lc: 3, lp: 0, pb: 2 };
             // output of several KiB with dict 4096: the window wraps and flushes more than once
-            let n = [3usize, 40, 400, 1500][which % 4];
-            let mut prog = walk(rng, n, 4096);
+            // 0 symbols: empty plaintext, where flushing (and a failing flush) is all there is to observe
+            let n = [3usize, 0, 1500, 40, 400][which % 5];
+            let mut prog = if n == 0 { vec![] } else { walk(rng, n, 4096) };
             let enc0 = coding::encode_program(&prog, p);
             let len = enc0.out.len() as u64;
             let (field, marker) = match opt {
@@ -235,8 +236,8 @@ fn sample_inputs(rng: &mut StdRng, a: Api, which: usize) -> (Vec<u8>, String) {
         }
         Api::StreamDec => {
             let p = Props { lc: 3, lp: 0, pb: 2 };
-            let n = [3usize, 40, 400, 1500][which % 4];
-            let mut prog = walk(rng, n, 4096);
+            let n = [3usize, 0, 1500, 40, 400][which % 5];
+            let mut prog = if n == 0 { vec![] } else { walk(rng, n, 4096) };
             prog.push(Sym::Eos);
             let enc = coding::encode_program(&prog, p);
             let mut d = lzma_header(p, 4096, Some(u64::MAX));
